@@ -1375,7 +1375,7 @@ impl Property for C12 {
     type Scenario = Scenario;
 
     fn rule() -> String {
-        "seeded simulations of 1-3 hosts: a listener program on h0 (bind wildcard/localhost on a fixed port, accept, drop, re-bind, sleeps) and 1-4 connectors (h0 itself via its own address or 127.0.0.1/::1, other hosts by IP or by name; IPv4/IPv6) aimed at the listener, at a port nobody listens on, or at an address no host owns, optionally wrapped in tokio::time::timeout (cancelled before or after the request was delivered); every connector writes a nonce, every accepted stream reads it; tcp_capacity > number of connectors. Faults: latency ranges (requests of different hosts reorder), hold/release and partition/oneway partition/repair around the handshake, listener drop with queued requests. Oracle = history check: every successful connect is mirrored by exactly one accepted stream (nonce, local/peer addresses), accepted streams without a successful connector only for connectors cancelled afterwards, a connector that gave up before the accept is never returned, accept order = arrival order of the requests (arrival observed through Sim::links; ties and undecidable arrivals not judged), ConnectionRefused (and no other error, no success, no hang) within ceil(max_latency/tick)+2 steps for unowned address / partitioned direction / SYN dropped by a partition / no (matching) listener at arrival / listener dropped with the request queued (held links excepted), no spurious refusal, rebinding after a drop works, and after every stream object is dropped established_tcp_stream_count[_on] = 0 on every host and agrees with the stream-table hook. Non-trivial: >=2 requests pending at the listener at some instant; distinct = digest of the event-kind sequence".into()
+        "seeded simulations of 1-3 hosts: a listener program on h0 (bind wildcard/localhost on a fixed port, accept, drop, re-bind, sleeps) and 1-4 connectors (h0 itself via its own address or 127.0.0.1/::1, other hosts by IP or by name; IPv4/IPv6) aimed at the listener, at a port nobody listens on, or at an address no host owns, optionally wrapped in tokio::time::timeout (cancelled before or after the request was delivered); every connector writes a nonce, every accepted stream reads it; tcp_capacity > number of connectors. Faults: latency ranges (requests of different hosts reorder), hold/release and partition/oneway partition/repair around the handshake, listener drop with queued requests. Oracle = history check: every successful connect is mirrored by exactly one accepted stream (nonce, local/peer addresses), accepted streams without a successful connector only for connectors cancelled afterwards, a connector that gave up before the accept is never returned, accept order = arrival order of the requests (arrival observed through Sim::links; ties and undecidable arrivals not judged), ConnectionRefused (and no other error, no success, no hang) within ceil(max_latency/tick)+2 steps for unowned address / partitioned direction / SYN dropped by a partition / no (matching) listener at arrival / listener dropped with the request queued (held links excepted), no spurious refusal, rebinding after a drop works, and after every stream object is dropped established_tcp_stream_count[_on] = 0 on every host and agrees with the stream-table hook. Non-trivial: >=2 requests pending at the listener at some instant; distinct = digest of the event-kind sequence. Added later: connectors cancelled by select! on an application event right after any accept; listener on the first ephemeral port; 127.0.0.1 connectors against [::] listeners in IPv6 simulations; partition_oneway followed by partition; hold-repair with and without a release; small ephemeral ranges; a request sent over a link that is healthy from then on must reach the listener's host.".into()
     }
     fn components_real() -> Vec<&'static str> {
         vec!["turmoil: net::TcpListener (bind/accept/drop), net::TcpStream::connect, host.rs accept queue and stream table, top.rs links (latency, hold, partition), established_tcp_stream_count[_on], Sim::links, hook Sim::verif_host_table_counts"]
